@@ -494,7 +494,7 @@ func c15Sample(p *ana.Prog, r *ana.Result) {
 		if ok {
 			capped := false
 			ana.IfEdges(fn, func(iff *ssa.If, b *ssa.BasicBlock) {
-				c, pos, isCmp := ana.AsCmp(iff.Cond)
+				c, pos, isCmp := ana.AsCmpDir(iff.Cond, token.LSS)
 				if isCmp && pos && c.Op == token.LSS {
 					if a, ok := c.X.(*ssa.Parameter); ok && a.Name() == "n" {
 						if bb, ok := c.Y.(*ssa.Parameter); ok && bb.Name() == "k" {
